@@ -31,6 +31,7 @@ def run(ctx):
     F = ctx.F
     impls = trait_impls(F, SM_TRAIT + "apply_chunk")
     ctx.floor("C15-a", len(impls), 2, "impls of StateMachine::apply_chunk")
+    n_adv = 0
     n_commit = 0
     n_wal = 0
     for root in impls:
@@ -76,7 +77,21 @@ def run(ctx):
                     elif F.call_reaches(t, key_pred(r"StateMachine>?::update_last_applied$|::update_last_applied$"), ctx.depth):
                         stores.append((b, bi, t))
             if not writes_data:
+                # the per-record work may live in a helper: look one level down before giving up, and fail closed
+                writes_data = any(F.call_reaches(t, lambda k: re.search(r"Map(::<.*>)?::(insert|extend)$", strip_generics(k)) is not None, 3)
+                                  for b in real_bodies(F, rp) for (_bi, t) in b.calls())
+                for b in real_bodies(F, rp):
+                    for (bi, t) in b.calls():
+                        if F.call_reaches(t, key_pred(r"StateMachine>?::update_last_applied$|::update_last_applied$"), ctx.depth) or \
+                                F.call_reaches(t, lambda k: re.search(ATOMIC_STORE, strip_generics(k)) is not None, 2):
+                            if (b, bi, t) not in stores:
+                                stores.append((b, bi, t))
+            if not writes_data:
+                ctx.bad("C15-b", "%s#advances-last_applied" % fkey(rp), "UNRECOGNISED-FORM: %s is named like a WAL replay but no write into the data map is reachable from it: "
+                        "the rule cannot tell whether it rebuilds data without advancing last_applied" % fkey(rp), "%s:%s" % (rp.file, rp.line))
+                n_adv += 1
                 continue
+            n_adv += 1
             # the stored value must be computed (from the parsed records), not a constant
             from_wal = [x for x in stores if len(x[2]["args"]) > 1 and
                         any(y[0] not in ("const", "agg") for y in Slice(F, x[0], through_calls=True).operand(x[2]["args"][1]).sources)]
@@ -89,6 +104,7 @@ def run(ctx):
                       "%s:%s" % (rp.file, rp.line))
     ctx.floor("C15-a", n_commit, 1, "batch commits (DB::write*) in apply_chunk impls")
     ctx.floor("C15-b", n_wal, 1, "WAL-replaying state machines")
+    ctx.floor("C15-b", n_adv, 1, "WAL replay functions examined for advancing last_applied")
 
     # ---------------------------------------------------------------- C15-c clear WAL only after data + metadata are persisted
     # EVERY place that empties the WAL: the WAL is the only durable copy of what was applied since the last checkpoint, so
